@@ -14,6 +14,35 @@ thread_local! {
     static LAST: RefCell<Option<PanicRec>> = RefCell::new(None);
 }
 
+thread_local! {
+    static CALLBACKS: std::cell::Cell<u64> = std::cell::Cell::new(0);
+    static CALLBACK_LIMIT: std::cell::Cell<u64> = std::cell::Cell::new(u64::MAX);
+}
+
+/// The second half of the simulated clock: callbacks the library makes into the harness
+/// (outline sink commands, `mappings_fn` closure calls). A loop that neither reads nor
+/// allocates but keeps calling back is bounded by the same per-op budget as primitive reads.
+pub fn tick() {
+    let n = CALLBACKS.with(|c| {
+        let n = c.get().wrapping_add(1);
+        c.set(n);
+        n
+    });
+    if n > CALLBACK_LIMIT.with(|c| c.get()) {
+        CALLBACK_LIMIT.with(|c| c.set(u64::MAX));
+        panic!("VERIF-STEP-BUDGET exceeded after {} callbacks into the caller", n);
+    }
+}
+
+pub fn reset_ticks(limit: u64) {
+    CALLBACKS.with(|c| c.set(0));
+    CALLBACK_LIMIT.with(|c| c.set(limit));
+}
+
+pub fn ticks() -> u64 {
+    CALLBACKS.with(|c| c.get())
+}
+
 pub static LAST_GLOBAL: std::sync::Mutex<Option<String>> = std::sync::Mutex::new(None);
 
 pub fn install_hook() {
